@@ -22,7 +22,7 @@ RULE = ("grammar-generated metadata files (string values with '=', spaces, >=2 d
         "or >= 1 tilde key; distinct = distinct (kind, stream, n, gains-hash, fs, range) / distinct generated file")
 ASSUMPTIONS = ["only in-grammar files: every line has '=', numeric values are canonical decimals or integer lists (no trailing commas, "
                "no float lists)", "float32 precision of the conversion vector (rtol 1e-6)"]
-REQUIRED = {"roundtrip_files": 50, "values_checked": 500, "derived_files": 30, "s2v_checked": 30, "fixtures_checked": 10}
+REQUIRED = {"roundtrip_files": 50, "values_checked": 500, "derived_files": 30, "s2v_checked": 30, "fixtures_checked": 10, "nidq_3a_run_headers": 5}
 CASE_TIMEOUT = 60.0
 
 
@@ -241,6 +241,17 @@ def run_case(case):
                 md1 = spikeglx.read_meta_data(f2)
                 res.check(set(md1) == set(snap) and all(_eq(md1[k2], snap[k2]) for k2 in snap), "roundtrip:after-derived-calls",
                           f"{k}/{rec.stream}: parse -> derive -> write -> parse differs from the first parse (keys {sorted(set(md1) ^ set(snap))[:4]})")
+                if k == "nidq":
+                    # the nidq header of a run acquired together with a phase-3A probe carries the run-wide key typeEnabled=imec,nidq: still a nidq stream, its rate
+                    # is niSampRate, its channel count nSavedChans (function level: such a header has no probe geometry to give a Reader)
+                    md3a = type(md0)(md0)
+                    md3a["typeEnabled"] = "imec,nidq"
+                    try:
+                        got3a = (spikeglx._get_type_from_meta(md3a), spikeglx._get_fs_from_meta(md3a), spikeglx._get_nchannels_from_meta(md3a))
+                        res.check(got3a == ("nidq", rec.fs, rec.nc), "derived:nidq-in-3A-run", f"nidq header with typeEnabled=imec,nidq: (type, fs, nc) = {got3a}, expected ('nidq', {rec.fs}, {rec.nc})",
+                                  counter="nidq_3a_run_headers")
+                    except Exception as e:
+                        res.exception("derived:nidq-in-3A-run:exception", e, "nidq header with typeEnabled=imec,nidq")
                 sr = spikeglx.Reader(f)
                 res.count("derived_files")
                 lab = f"{k}/{rec.stream}/n={rec.nc}"
